@@ -59,6 +59,35 @@ def impl_roundtrip(case):
     elif [vars(m) for m in ms] != before:
         fail = 'messages modified by writing'
     line = 'ok' + (' ' + parsing.canon_list(back) if back else '')
+    if fail is None and len(ms) < 60 and len(desc) % 2 == 0:
+        # the messages handed over as other kinds of iterable (a Parser drains itself when iterated and is not its own
+        # iterator; a deque; a generator; a MidiTrack), and as standard-library copies of the messages (pickled, deep-copied)
+        import collections
+        import copy
+        import pickle
+        variants = []
+        p = mido.Parser()
+        for m in ms:
+            p.feed(m.bytes())
+        variants.append(('a Parser holding the messages', p))
+        variants.append(('a deque', collections.deque(build(desc))))
+        variants.append(('a generator', (m for m in build(desc))))
+        variants.append(('a MidiTrack', mido.MidiTrack(build(desc))))
+        variants.append(('pickled messages', [pickle.loads(pickle.dumps(m)) for m in ms]))
+        variants.append(('a pickled list of messages', pickle.loads(pickle.dumps(list(ms), 0))))
+        variants.append(('deep-copied messages', copy.deepcopy(list(ms))))
+        from mido.frozen import freeze_message
+        variants.append(('pickled frozen messages', [pickle.loads(pickle.dumps(freeze_message(m))) for m in ms]))
+        for what, it in variants:
+            try:
+                mido.write_syx_file(path, it, plaintext=plaintext)
+                again = mido.read_syx_file(path)
+            except Exception as e:
+                fail = f'writing {what} raised {type(e).__name__}: {e}'
+                break
+            if again != want:
+                fail = f'writing {what} and reading back gives {again!r}, the sysex messages are {want!r}'
+                break
     if fail is None and back and len(back) < 50:
         # what was read belongs to the caller: after the caller edits it, reading the untouched file again gives the file
         try:
